@@ -169,7 +169,7 @@ def theorems_in(lean_file):
             m = re.match(r'^end (\S+)', line)
             if m and ns and ns[-1] == m.group(1):
                 ns.pop()
-            m = re.match(r'^(?:private |protected )?theorem (\S+)', line)
+            m = re.match(r'^(?:protected )?theorem (\S+)', line)   # private helper lemmas are not obligations
             if m:
                 names.append('.'.join(ns + [m.group(1)]))
     return names
@@ -281,6 +281,12 @@ def prove(pid, extra_targets=(), fact_modules=()):
     hits = grep_forbidden(pid)
     if hits:
         res['forbidden'] = hits
+    if os.environ.get('VERIF_TIER_EFFECTIVE') == 'thorough':
+        # independent re-check of the compiled property module by the toolchain's leanchecker
+        lc = sh(['lake', 'env', 'leanchecker', f'Precis.Props.{pid}'], cwd=LEAN, check=False, timeout=1800)
+        res['leanchecker'] = 'ok' if lc.returncode == 0 else ('FAILED: ' + lc.stdout[-500:])
+        if lc.returncode != 0:
+            res['failed'] = res['failed'] + [f'leanchecker Precis.Props.{pid}']
     res['wall_s'] = time.time() - t0
     return res
 
@@ -379,6 +385,20 @@ def load_known():
 # main
 # ----------------------------------------------------------------------------------------------
 
+def source_digest():
+    """sha256 of every source file of the three crates (what the model and the harness were run against)"""
+    out = {}
+    for crate in ('precis-core', 'precis-profiles', 'precis-tools'):
+        for root, _, files in os.walk(os.path.join(REPO, crate)):
+            if '/target' in root or '/resources' in root:
+                continue
+            for fn in sorted(files):
+                if fn.endswith('.rs') or fn.endswith('.template'):
+                    pth = os.path.join(root, fn)
+                    out[os.path.relpath(pth, REPO)] = hashlib.sha256(open(pth, 'rb').read()).hexdigest()[:16]
+    return out
+
+
 def write_replay(pid, payload):
     os.makedirs(REPLAY, exist_ok=True)
     h = hashlib.sha256(json.dumps(payload, sort_keys=True).encode()).hexdigest()[:12]
@@ -421,6 +441,8 @@ def main(argv):
         else:
             i += 1
     seed = int(os.environ.get('VERIF_SEED', '1'))
+    os.environ['VERIF_TIER_EFFECTIVE'] = tier
+    ENV['VERIF_TIER_EFFECTIVE'] = tier
     sys.path.insert(0, os.path.join(VERIF, 'tools'))
     mod = importlib.import_module(f'props.{pid.lower()}')
     t0 = time.time()
@@ -537,7 +559,10 @@ def finish(ctx, mod, proof, corr, t0):
         ] + list(getattr(mod, 'TRUSTED', [])),
         'theorems': proof['theorems'],
         'failed_obligations': proof['failed'],
+        'modelled_source_digest': source_digest(),
     }
+    if 'leanchecker' in proof:
+        cov['leanchecker'] = proof['leanchecker']
     if corr is not None:
         cov.update({
             'evaluations': corr.evaluations,
